@@ -215,7 +215,9 @@ vk_chunks_from!(vk_int_chunks_from_cb65, 65);
 vk_chunks_from!(vk_int_chunks_from_cb100, 100);
 
 // ---------------------------------------------------------------------------------------------------------------
-// 1..=2 word inputs (TypedReprRef::RefSmall::to_chunks): fully symbolic value, literal chunk size, at most 3 chunks
+// 1..=2 word inputs (TypedReprRef::RefSmall::to_chunks): fully symbolic value, literal chunk size, at most 3 chunks.
+// The Vec<Repr> of symbolic length costs CBMC ~4.5 min and 10-20 GB per instance with two or more chunks (instances for
+// 63, 65 and 128 bits ran out of memory next to each other): three instances, thorough tier.
 
 /// bit length of a symbolic u128 by binary search (oracle; no loop)
 fn vk_bit_len_u128(x: u128) -> usize {
@@ -286,11 +288,8 @@ macro_rules! vk_chunks_small {
         }
     };
 }
-vk_chunks_small!(vk_int_chunks_small_cb63, 63);
 vk_chunks_small!(vk_int_chunks_small_cb64, 64);
-vk_chunks_small!(vk_int_chunks_small_cb65, 65);
 vk_chunks_small!(vk_int_chunks_small_cb127, 127);
-vk_chunks_small!(vk_int_chunks_small_cb128, 128);
 vk_chunks_small!(vk_int_chunks_small_cb129, 129);
 
 // ---------------------------------------------------------------------------------------------------------------
